@@ -7,7 +7,8 @@ RULE = ('(a) every one of the 1,114,112 code points alone and embedded as a<c>b;
         'over an alphabet with one representative per character category plus the letters/words that form multi-character '
         'tokens (exhaustive); (c) random strings of up to 60 symbols incl. non-ASCII. Non-trivial: (a) the character is '
         'not an ASCII letter or digit; (b,c) the string yields >= 2 different kinds of multi-character token, or has an '
-        'ignored character (NUL/DEL) next to a non-text token; distinct by string')
+        'ignored character (NUL/DEL) next to a non-text token; distinct by string'
+        '. (d) long inputs: 14 units repeated to 25 exact lengths from 255 to 70001 characters, bare / wrapped / shifted / followed by a letter (all non-trivial)')
 ASSUMPTIONS = [
     'only NUL and DEL may be dropped; every other character must appear in exactly one token',
     'a token position must be the index at which its first character was aligned in the input',
